@@ -73,6 +73,8 @@ inductive Stmt where
   | tcx
   | ti
   | gj (k : Nat)
+  /-- `( probe "$!" "$x"; wait $! )` -/
+  | gl
   | wx
   | sc (n : Nat)
   | scp (n : Nat)
@@ -453,6 +455,13 @@ def St.stmt (st : St) : Stmt → St
   | .tcx => { st with status := 0 }
   | .ti => { st with status := 0 }
   | .gj _ => { st with status := if st.useSys then waitStatus .echild else Spec.wait none }
+  | .gl =>
+    -- XCU 2.5.2 / 2.12: the subshell inherits the VALUE of `$!`, but that process is not its child: the probe inside
+    -- prints the parent's `$!` (after status 0), `wait $!` there yields 127; the parent's `$!` is unaffected
+    let bang := if st.nasync = 0 then "-" else if st.nasync ≠ st.probed then s!"a{st.seen + 1}" else s!"a{st.seen}"
+    let x := if st.x.isEmpty then "-" else st.x
+    let st1 := st.subshell (if st.useSys then waitStatus .echild else Spec.wait none)
+    { st1 with out := s!"{showStatus st.status}/{bang}/{x}" :: st1.out }
   | .wx => { st with status := 2 }
   | .sc n =>
     -- job 1 `st 0 &` is waited for at once (the table is empty again), job 2 is the helper (exit 0)
